@@ -1,0 +1,34 @@
+//go:build verif
+
+// Verification hook (add-only, compiled only with -tags verif): lets the C10 harness of /verif
+// construct the builtin transformer plugins, which live in an internal package.
+package krusty
+
+import (
+	"sigs.k8s.io/kustomize/api/internal/builtins"
+	"sigs.k8s.io/kustomize/api/internal/plugins/builtinconfig"
+	"sigs.k8s.io/kustomize/api/resmap"
+	"sigs.k8s.io/kustomize/api/types"
+)
+
+// VerifC10DefaultFieldSpecs returns the default images / replicas field specs at run time
+// (cross-check of the translated tables).
+func VerifC10DefaultFieldSpecs() (images, replicas types.FsSlice) {
+	c := builtinconfig.MakeDefaultConfig()
+	return c.Images, c.Replicas
+}
+
+// VerifC10Transformer returns a fresh, unconfigured builtin transformer plugin, or nil.
+func VerifC10Transformer(name string) resmap.TransformerPlugin {
+	switch name {
+	case "ImageTagTransformer":
+		return builtins.NewImageTagTransformerPlugin()
+	case "ReplicaCountTransformer":
+		return builtins.NewReplicaCountTransformerPlugin()
+	case "ReplacementTransformer":
+		return builtins.NewReplacementTransformerPlugin()
+	case "PatchTransformer":
+		return builtins.NewPatchTransformerPlugin()
+	}
+	return nil
+}
